@@ -288,3 +288,180 @@ Proof.
               | Ok (s, _) => (nb s, max_chain s) | _ => (0, 0) end = (2, 2)) by (vm_compute; reflexivity).
   rewrite H1 in E. injection E as E1 E2. repeat split; auto.
 Qed.
+
+(* ======================================================================
+   The guarded layer: the same pointer-level table WITH hashtable.go's two guard
+   fields (Guarded.v: state = Concrete.state + frozen : bool + itercount : N, a
+   uint32 whose ++ / -- wrap modulo 2^32), every mutator behind checkMutable at
+   the place the code has it (insert: BEFORE the lazy `if ht.table == nil
+   { ht.init(1) }`; delete; clear -- also on an empty table), popitem / pop and
+   s.clear() with their look-before-you-call tests (library.go), iterate() /
+   Done() touching itercount only when not frozen, freeze().  The specification
+   (GuardedSpec.v) is the association list plus the two flags.
+
+   Abstracted: as above; freeze()'s e.key.Freeze() / e.value.Freeze() act on the
+   key / value objects (abstract here), not on the table's memory; errors are
+   compared by class (Frozen | Iterating), never by message.  The tie of THIS
+   layer to /repo is the guard mode of checks/c12.py (`c12 guard`: public API
+   SetKey / Insert / Delete / Clear / popitem / pop / s.clear() / Get / Has /
+   Items / Len / IsSubset / Iterate / Done / Freeze, every observation evaluated
+   against Guarded.v and GuardedSpec.v by GuardedCheck.v; and the bytes of the
+   real hashtable struct and all its buckets must not change across a refused
+   mutator, a reader, any event on a frozen table, a whole iteration).
+   ====================================================================== *)
+From SV Require Import C12.GuardedOps C12.GuardedSpec C12.Guarded C12.ProofsGuarded.
+
+(* (1) A refused mutation leaves the table untouched: for EVERY state g (any
+   store, well formed or not, any hash function) that is frozen or has a live
+   iterator, insert / delete / clear return the error of checkMutable (Frozen
+   first, else Iterating) and the state returned is EQUAL to g -- the whole
+   record: store at every address, nb, nbk, len, head, tailLink and both flags;
+   in particular a nil table stays nil (no lazy init), an existing key keeps its
+   value.  s.clear() does the same unless the set is empty (then it succeeds
+   without calling Clear -- the code's `if Len() > 0`); popitem() / pop() return
+   the error when the table has a first entry and the "empty" error when it has
+   none (first() comes before Delete), the state equal to g in both cases. *)
+Theorem refused_leaves_table_untouched :
+  forall (K V : Type) (eqb : K -> K -> bool) (h : K -> N) (vnone : V) (g : @gstate K V),
+    frozen g = true \/ (0 < itercount g)%N ->
+    let e := if frozen g then Frozen else Iterating in
+    (forall k v, g_insert eqb h g k v = Ok (g, GErr e)) /\
+    (forall k, g_delete eqb h g k = Ok (g, GErr e)) /\
+    g_clear g = Ok (g, GErr e) /\
+    g_set_clear g = Ok (g, if Nat.eqb (len (tbl g)) 0 then GO ONone else GErr e) /\
+    (forall g' r, g_pop_first eqb h vnone g = Ok (g', r) ->
+        g' = g /\ ((r = GErr e /\ head (tbl g) <> None) \/ (r = GO (OKV None) /\ head (tbl g) = None))) /\
+    (forall l, R h (tbl g) l ->
+        g_pop_first eqb h vnone g = Ok (g, match l with [] => GO (OKV None) | _ :: _ => GErr e end)).
+Proof. intros K V eqb h vnone. exact (refused_untouched eqb h vnone). Qed.
+
+(* the same for the event alphabet: whatever a refused mutator event returns, the state is g *)
+Theorem refused_event_returns_the_same_state :
+  forall (K V : Type) (eqb : K -> K -> bool) (h : K -> N) (vnone : V) (g : @gstate K V) o,
+    frozen g = true \/ (0 < itercount g)%N -> is_mutator o = true ->
+    forall g' r, g_step eqb h vnone g o = Ok (g', r) -> g' = g.
+Proof. intros K V eqb h vnone. exact (refused_step_same eqb h vnone). Qed.
+
+(* (2) Not frozen and no live iterator: the guarded operation IS the Concrete.v
+   operation (equal results, flags unchanged: with_tbl keeps frozen / itercount),
+   hence inherits refinement_step.  s.clear() clears, or does nothing on an empty set. *)
+Theorem guarded_refines :
+  forall (K V : Type) (eqb : K -> K -> bool) (h : K -> N) (vnone : V), eq_ok eqb ->
+  forall g : @gstate K V, frozen g = false -> itercount g = 0%N ->
+    (forall o co, core o = Some co ->
+       g_step eqb h vnone g o =
+       step eqb h vnone (tbl g) co >>= fun r => Ok (with_tbl g (fst r), GO (snd r))) /\
+    (forall l o co, core o = Some co -> R h (tbl g) l ->
+       exists t', g_step eqb h vnone g o = Ok (with_tbl g t', GO (snd (spec_step eqb vnone l co))) /\
+                  R h t' (fst (spec_step eqb vnone l co))) /\
+    (forall l, R h (tbl g) l ->
+       exists t', g_step eqb h vnone g GSetClear = Ok (with_tbl g t', GO ONone) /\ R h t' []).
+Proof. intros K V eqb h vnone He. exact (guarded_refines_all eqb h vnone He). Qed.
+
+(* (3) Readers never write: lookup / items / len / issubset (hashtable.count)
+   return the state they were given -- for EVERY state and whatever the flags --
+   and, on a well-formed table, the association list's answers; on a FROZEN table
+   iterate() / Done() / a whole iteration / freeze() leave the state equal too
+   (itercount is not touched) and the iteration yields the list's keys in order. *)
+Theorem reads_never_write :
+  forall (K V : Type) (eqb : K -> K -> bool) (h : K -> N) (vnone : V), eq_ok eqb ->
+  forall g : @gstate K V,
+    (forall o, is_reader o = true -> forall g' r, g_step eqb h vnone g o = Ok (g', r) -> g' = g) /\
+    (forall l, R h (tbl g) l ->
+      (forall k, g_step eqb h vnone g (GLookup k) = Ok (g, GO (OVal (sp_lookup eqb l k)))) /\
+      g_step eqb h vnone g GItems = Ok (g, GItemsOut l) /\
+      g_step eqb h vnone g GLen = Ok (g, GLenOut (length l)) /\
+      (forall ks, g_step eqb h vnone g (GIsSubset ks) = Ok (g, GO (OBool (sp_issubset eqb l ks)))) /\
+      (forall ks, fst (g_count eqb h g ks) = g) /\
+      (frozen g = true ->
+         g_iter_begin g = (g, head (tbl g)) /\ g_iter_done g = g /\
+         g_step eqb h vnone g GIterBegin = Ok (g, GO ONone) /\
+         g_step eqb h vnone g GIterDone = Ok (g, GO ONone) /\
+         g_step eqb h vnone g GIterate = Ok (g, GKeysOut (keys l)) /\
+         g_step eqb h vnone g GFreeze = Ok (g, GO ONone))).
+Proof. intros K V eqb h vnone He. exact (reads_never_write_all eqb h vnone He). Qed.
+
+(* (4) iterate(); Done() on an unfrozen table: the table is not touched and
+   itercount comes back modulo 2^32 -- exactly, for every value a uint32 can hold
+   (also Done(); iterate()).  In between the table refuses mutation -- unless the
+   counter wrapped: with 2^32 - 1 live iterators one more iterate() makes
+   itercount 0 and checkMutable passes (the uint32 wrap, stated as it is). *)
+Theorem iterate_balanced :
+  forall (K V : Type) (g : @gstate K V), frozen g = false ->
+    g_iter_done (fst (g_iter_begin g)) = mkG (tbl g) false (u32 (itercount g)) /\
+    g_iter_begin (g_iter_done g) = (mkG (tbl g) false (u32 (itercount g)), head (tbl g)) /\
+    ((itercount g < two32)%N -> g_iter_done (fst (g_iter_begin g)) = g) /\
+    ((itercount g < two32 - 1)%N -> check_mutable (fst (g_iter_begin g)) = Some Iterating) /\
+    (itercount g = (two32 - 1)%N -> check_mutable (fst (g_iter_begin g)) = None).
+Proof. intros K V. exact (@iterate_done_balanced K V). Qed.
+
+(* (5) Every history of guarded events (mutators, readers, iterate / Done, whole
+   iterations, freeze -- in any order, any length, Done without iterate included)
+   from any well-formed table with any flags: every output -- values, errors and
+   their class, items, len, iteration order -- equals that of the guarded
+   association list, the table stays well formed and represents the list, the
+   flags agree.  Induction over the event list; the specification's run is a
+   fold_left.  In particular from new(Dict) / new(Set). *)
+Theorem history_guarded :
+  forall (K V : Type) (eqb : K -> K -> bool) (h : K -> N) (vnone : V), eq_ok eqb ->
+  forall os,
+    (forall (g : @gstate K V) l, R h (tbl g) l ->
+       let gs := mkGS l (frozen g) (itercount g) in
+       exists g', g_run eqb h vnone g os = Ok (g', snd (gspec_run eqb vnone gs os)) /\
+                  R h (tbl g') (sl (fst (gspec_run eqb vnone gs os))) /\
+                  frozen g' = sfrozen (fst (gspec_run eqb vnone gs os)) /\
+                  itercount g' = siter (fst (gspec_run eqb vnone gs os))) /\
+    (let final := fst (gspec_run eqb vnone gs_empty os) in
+     exists g', g_run eqb h vnone g_zero os = Ok (g', snd (gspec_run eqb vnone gs_empty os)) /\
+                items (tbl g') = Ok (sl final) /\ len (tbl g') = length (sl final) /\
+                (forall k, lookup eqb h (tbl g') k = sp_lookup eqb (sl final) k) /\
+                frozen g' = sfrozen final /\ itercount g' = siter final).
+Proof. intros K V eqb h vnone He. exact (history_guarded_all eqb h vnone He). Qed.
+
+(* ---- non-vacuity of the guarded layer ---- *)
+(* History 1: two inserts; iterate(); insert of the EXISTING key 1, insert of a
+   new key, delete -- all refused (Iterating), key 1 still maps to 10; Done();
+   the same insert now succeeds; freeze(); clear refused (Frozen); iterate() /
+   Done() on the frozen table leave itercount at 0; a whole iteration yields
+   1, 2; popitem refused (Frozen); the items are (1,11), (2,20).
+   History 2: new(Dict), frozen while its table is still nil: Clear is refused
+   although the table is empty, s.clear() succeeds, popitem says "empty" (not
+   "frozen"), insert and delete are refused -- and the table is STILL nil
+   (nb = 0): the refused insert did not run the lazy init. *)
+Definition ex_gops1 : list (gop N N) :=
+  [GInsert 1 10; GInsert 2 20; GIterBegin; GInsert 1 99; GInsert 3 30; GDelete 2; GLookup 1; GIterDone;
+   GInsert 1 11; GFreeze; GClear; GIterBegin; GIterDone; GIterate; GPopFirst; GItems]%N.
+Definition ex_gops2 : list (gop N N) :=
+  [GFreeze; GClear; GSetClear; GPopFirst; GInsert 1 1; GDelete 1; GLen; GIterate]%N.
+Definition ex_gobs (os : list (gop N N)) :=
+  match g_run N.eqb (fun _ => 0%N) 0%N g_zero os with
+  | Ok (g', outs) => Some (outs, frozen g', itercount g', nb (tbl g'), items (tbl g'))
+  | _ => None
+  end.
+
+Example guarded_premises_hold :
+  ex_gobs ex_gops1 =
+    Some ([GO ONone; GO ONone; GO ONone; GErr Iterating; GErr Iterating; GErr Iterating;
+           GO (OVal (Some 10)); GO ONone; GO ONone; GO ONone; GErr Frozen; GO ONone; GO ONone;
+           GKeysOut [1; 2]; GErr Frozen; GItemsOut [(1, 11); (2, 20)]],
+          true, 0, 1%nat, Ok [(1, 11); (2, 20)])%N /\
+  ex_gobs ex_gops2 =
+    Some ([GO ONone; GErr Frozen; GO ONone; GO (OKV None); GErr Frozen; GErr Frozen; GLenOut 0; GKeysOut []],
+          true, 0%N, 0%nat, Ok []) /\
+  (* a well-formed state with a live iterator exists (premise of (1)), and one
+     that is mutable (premise of (2)) *)
+  (exists g : @gstate N N,
+     g_run N.eqb (fun _ => 0%N) 0%N g_zero [GInsert 1 10; GInsert 2 20; GIterBegin]%N = Ok (g, [GO ONone; GO ONone; GO ONone]) /\
+     R (fun _ : N => 0%N) (tbl g) [(1, 10); (2, 20)]%N /\ frozen g = false /\ (0 < itercount g)%N) /\
+  (exists g : @gstate N N,
+     g_run N.eqb (fun _ => 0%N) 0%N g_zero [GInsert 1 10; GIterBegin; GIterDone]%N = Ok (g, [GO ONone; GO ONone; GO ONone]) /\
+     R (fun _ : N => 0%N) (tbl g) [(1, 10)]%N /\ frozen g = false /\ itercount g = 0%N).
+Proof.
+  split; [vm_compute; reflexivity|]. split; [vm_compute; reflexivity|]. split.
+  - destruct (grun_ok N.eqb (fun _ => 0%N) 0%N N.eqb_eq [GInsert 1 10; GInsert 2 20; GIterBegin]%N
+                      g_zero gs_empty (GR_zero _)) as (g & H1 & HR & Hf & Hi).
+    exists g. split; [exact H1|]. split; [exact HR|]. split; [exact Hf|]. rewrite Hi. vm_compute. reflexivity.
+  - destruct (grun_ok N.eqb (fun _ => 0%N) 0%N N.eqb_eq [GInsert 1 10; GIterBegin; GIterDone]%N
+                      g_zero gs_empty (GR_zero _)) as (g & H1 & HR & Hf & Hi).
+    exists g. split; [exact H1|]. split; [exact HR|]. split; [exact Hf|]. rewrite Hi. vm_compute. reflexivity.
+Qed.
